@@ -814,3 +814,55 @@ func init() {
 		return reflect.Kind(asInt64(args[0])).String()
 	})
 }
+
+func init() {
+	reg("reflect.Copy", func(i *interpreter, fr *frame, args []value) value {
+		dst, src := args[0].(rval), args[1].(rval)
+		dst.mustValid("Copy")
+		src.mustValid("Copy")
+		var ds, ss []value
+		switch d := dst.get().(type) {
+		case []value:
+			ds = d
+		case array:
+			if dst.addr == nil {
+				reflectPanic("reflect.Copy: unaddressable array value")
+			}
+			ds = []value((*dst.addr).(array))
+		default:
+			reflectPanic("reflect.Copy: destination is %s", kindOfType(dst.t))
+		}
+		switch s := src.get().(type) {
+		case []value:
+			ss = s
+		case array:
+			ss = []value(s)
+		case string, symstr:
+			ss = strBytes(s)
+		default:
+			reflectPanic("reflect.Copy: source is %s", kindOfType(src.t))
+		}
+		n := len(ss)
+		if len(ds) < n {
+			n = len(ds)
+		}
+		for k := 0; k < n; k++ {
+			ds[k] = copyVal(ss[k])
+		}
+		return n
+	})
+	reg("(*reflect.rtype).Key", func(i *interpreter, fr *frame, args []value) value {
+		mt, ok := args[0].(rtype).t.Underlying().(*types.Map)
+		if !ok {
+			reflectPanic("reflect: Key of non-map type")
+		}
+		return i.mkRType(mt.Key())
+	})
+	reg("(*reflect.rtype).Len", func(i *interpreter, fr *frame, args []value) value {
+		at, ok := args[0].(rtype).t.Underlying().(*types.Array)
+		if !ok {
+			reflectPanic("reflect: Len of non-array type")
+		}
+		return int(at.Len())
+	})
+}
